@@ -6,19 +6,26 @@
 #define KV_STUBS_LOG_H
 #ifdef KV_CBMC
 double nondet_double(void);
-static double kv_log_iv(double mid)
+/* log is a FUNCTION: the same argument gives the same (unknown, interval-constrained) value on every call */
+static double kv_log_val[5];
+static int kv_log_set[5];
+static double kv_log_iv(int k, double mid)
 {
-        double r = nondet_double();
-        __CPROVER_assume(r >= mid - 1e-9 && r <= mid + 1e-9);
-        return r;
+        if(!kv_log_set[k]){
+                double r = nondet_double();
+                __CPROVER_assume(r >= mid - 1e-9 && r <= mid + 1e-9);
+                kv_log_val[k] = r;
+                kv_log_set[k] = 1;
+        }
+        return kv_log_val[k];
 }
 double log(double x)
 {
-        if(x == 0.0001 * 1.0 / 116.0){ return kv_log_iv(-13.963930563082547); }
-        if(x == 0.0001 * 1.0 / 88.0){  return kv_log_iv(-13.687677186454389); }
-        if(x == 0.9999 * 1.0 / 12.0){  return kv_log_iv(-2.4850066547883336); }
-        if(x == 0.9999 * 1.0 / 40.0){  return kv_log_iv(-3.6889794591142695); }
-        if(x == 0.9999 * 1.0 / 42.0){  return kv_log_iv(-3.7377696232837017); }
+        if(x == 0.0001 * 1.0 / 116.0){ return kv_log_iv(0, -13.963930563082547); }
+        if(x == 0.0001 * 1.0 / 88.0){  return kv_log_iv(1, -13.687677186454389); }
+        if(x == 0.9999 * 1.0 / 12.0){  return kv_log_iv(2, -2.4850066547883336); }
+        if(x == 0.9999 * 1.0 / 40.0){  return kv_log_iv(3, -3.6889794591142695); }
+        if(x == 0.9999 * 1.0 / 42.0){  return kv_log_iv(4, -3.7377696232837017); }
         return nondet_double();
 }
 #endif
